@@ -77,6 +77,16 @@ def _pattern_ops(rng, ctx):
 
 
 def generate(rng, index, tier):
+    if index % 2999 == 37:
+        # a busy system: as many distinct threads as a count the source names, each leaving an operation open, while one early
+        # thread sits inside an ordinary and a trace-domain window that close at the very end
+        n = worlds.dict_size(rng, 70000) or 5000
+        s_, e_ = worlds.domains.draw(rng, 'BSC_read')
+        victim = {'tid': 50, 'ops': [{'k': 'sys', 'name': 'BSC_getpid', 's': [0, 0, 0, 0], 'e': [0, 1, 0, 0], 'in': []},
+                                      {'k': 'sys', 'name': 'BSC_read', 's': s_, 'e': e_, 'in': [{'k': 'tname', 'text': 'v' * 40, 'prev': False}]}]}
+        crowd = [{'tid': 1000 + i, 'ops': [{'k': 'raw', 'id': 0x40c0010, 'q': 1, 'a': [i, 0, 0, 0]}]} for i in range(n)]
+        # victim: getpid S,E then read START, name chunk 1 | the crowd | name chunk 2, read END
+        return {'threads': [victim] + crowd, 'schedule': [0, 0, 0, 0] + [1] * n + [0, 0], 'faults': [], 'long': n}
     if index % 997 == 1:
         # a long-running operation: thousands of same-thread records inside one window, then the thread goes on
         n = worlds.LONG_SIZES[(index // 997) % len(worlds.LONG_SIZES)]
@@ -230,7 +240,7 @@ def execute(scn):
             named = rec['a'][1] if name == 'PERF_THD_Data' else rec['a'][0]
             if m.open.get(('ord', named)) or m.open.get(('trace', named)):
                 bump('probe:record_names_thread_with_open_window')
-        before_open = dict((k, set(v)) for k, v in m.open.items())
+        before_open = {k: set(m.open[k]) for k in (('ord', rec['t']), ('trace', rec['t'])) if k in m.open}
         exp = m.feed(i, rec['t'], rec['id'], rec['q'], domain)
         del calls[:]
         try:
@@ -316,7 +326,8 @@ def execute(scn):
                     bad('emitted-for-undecodable-single', 'q=%d' % rec['q'], 'record %d %r: %r / %r' % (i, name, top, ret))
         if ret is not None and not top and kind != 'end-matched':
             pass
-        sigs.add(m.signature())
+        if len(m.open) < 64:
+            sigs.add(m.signature())
         hist.append([i, kind, [c[:2] for c in top], None if ret is None else type(ret).__name__])
         if viols:
             break
